@@ -31,12 +31,12 @@ ASSUME = ["TLC and the CommunityModules Json reader are trusted",
 
 TIERS = {  # seq programs, steps; conc traces, writer calls per epoch, epochs
     "quick": dict(seq=(40, 500), conc=(24, 50, 3), race=0),
-    "thorough": dict(seq=(400, 1200), conc=(240, 90, 4), race=48),
+    "thorough": dict(seq=(240, 800), conc=(160, 90, 4), race=32),
 }
 MC = {
     "quick": ["MemDBMC_seq.cfg", "MemDBMC_quick.cfg", "MemDBMC_quick2.cfg"],
-    "thorough": ["MemDBMC_seq.cfg", "MemDBMC_quick.cfg", "MemDBMC_thorough.cfg", "MemDBMC_thorough2.cfg",
-                 "MemDBMC_thorough3.cfg"],
+    "thorough": ["MemDBMC_seq.cfg", "MemDBMC_quick.cfg", "MemDBMC_quick2.cfg", "MemDBMC_thorough.cfg",
+                 "MemDBMC_thorough2.cfg", "MemDBMC_thorough3.cfg", "MemDBMC_thorough4.cfg"],
 }
 KNOWN_SIG = "c14:seq:next-after-delete"
 MAX_ROUNDS = 60
@@ -84,6 +84,8 @@ def classify(path, lineno):
         return "c14:seq:write:%s" % ev.get("op"), ev
     if kind in ("wbeg", "wend"):
         return "c14:conc:%s" % kind, ev
+    if kind in ("get", "find", "has"):
+        return "c14:seq:%s" % kind, ev
     return "c14:%s" % kind, ev
 
 
